@@ -192,12 +192,27 @@ struct Case {
     volcano: bool,
     shared_vocab: bool,
     lockstep: bool,
+    /// how the streams are called: 0 = unrelated names, 1 = names that are suffixes / prefixes
+    /// of one another, 2 = names that differ in letter case only
+    naming: u8,
     /// (stream, triple, timestamp) in feeding order; per stream the timestamps never decrease
     feed: Vec<(usize, LT, usize)>,
 }
 
+thread_local! {
+    static NAMING: std::cell::Cell<u8> = const { std::cell::Cell::new(0) };
+}
+/// the stream names of the case being handled (set by every function that takes the case)
+fn use_naming(cs: &Case) {
+    NAMING.with(|n| n.set(cs.naming));
+}
 fn stream_name(i: usize) -> String {
-    format!("st{}", i)
+    match NAMING.with(|n| n.get()) {
+        // every name is a proper suffix or prefix of another one
+        1 => ["r", "sr", "r1", "xsr", "sr1", "r12"].get(i).map(|s| s.to_string()).unwrap_or_else(|| format!("r{}x", i)),
+        2 => ["s", "S", "sS", "Ss", "SS", "ss"].get(i).map(|s| s.to_string()).unwrap_or_else(|| format!("S{}s", i)),
+        _ => format!("st{}", i),
+    }
 }
 impl Win {
     fn listens(&self, s: usize) -> bool {
@@ -250,6 +265,7 @@ fn pats_text(p: &[TP]) -> String {
 }
 
 fn query_text(cs: &Case) -> String {
+    use_naming(cs);
     let mut q = String::new();
     let op = ["RSTREAM", "ISTREAM", "DSTREAM"][cs.stream_op as usize % 3];
     q.push_str(&format!("REGISTER {} <http://out/stream> AS\nSELECT *\n", op));
@@ -289,6 +305,7 @@ fn nt_line(t: &LT) -> String {
 }
 
 fn case_json(cs: &Case) -> Value {
+    use_naming(cs);
     json!({
         "query": query_text(cs),
         "mode": cs.mode.name(),
@@ -618,6 +635,7 @@ fn gen_case(r: &mut Rng, size: Size, thorough: bool) -> Case {
         volcano: !r.chance(1, 4),
         shared_vocab,
         lockstep: r.chance(1, 3),
+        naming: if r.chance(2, 5) { r.range(1, 2) as u8 } else { 0 },
         feed,
     };
     limit_size(&mut cs, if thorough { 400_000 } else { 120_000 });
@@ -754,6 +772,7 @@ fn wait_until(mut cond: impl FnMut() -> bool) -> bool {
 }
 
 fn run_engine(cs: &Case, sched_seed: u64, style: u8) -> RunOut {
+    use_naming(cs);
     let nw = cs.wins.len();
     let mut out = RunOut { rows: vec![], consumer_calls: 0, contents: vec![vec![]; nw], hook_counts: [0; 5], event_order_hash: 0, threads_seen: 0, flush_reports: 0, error: None };
     let counts: Arc<Vec<AtomicUsize>> = Arc::new((0..nw).map(|_| AtomicUsize::new(0)).collect());
@@ -994,6 +1013,7 @@ fn strip(t: &str) -> String {
 }
 
 fn check(cs: &Case, run: &RunOut) -> (Vec<Finding>, Stats) {
+    use_naming(cs);
     let mut st = Stats::default();
     let mut findings: Vec<Finding> = vec![];
     let mut seen: HashSet<String> = HashSet::new();
